@@ -25,7 +25,8 @@
 //   sp:<program>:<host>:<kill delay|-> create a child running that program (kill time = now+delay set by the parent right away)
 //
 // Every scenario runs in a forked child (one Engine per process). stdout (line buffered): "B <id>", the child's records and
-// "X <id> <status>" once the child is reaped (exit code, or 1000+signal); the child's stderr is redirected to stdout.
+// "X <id> <status>" once the child is reaped (exit code, or 1000+signal; 1014 = the per-scenario wall-clock guard fired); the child's
+// stderr is redirected to stdout.
 // A record is "<KIND> <clock %.17g> ...", the clock being Engine::get_clock() when the record is written; the records of one
 // scenario form one totally ordered stream (the kernel is sequential):
 //   CR pid name            Actor::on_creation signal          BG pid name host          first instruction of the actor's body
@@ -502,6 +503,10 @@ int main(int argc, char** argv)
       pid_t pid = fork();
       if (pid == 0) {
         dup2(1, 2);
+        // wall-clock guard of one scenario (SimGrid itself may hang, e.g. thread contexts re-scheduling a dead actor): the
+        // child dies with SIGALRM (status 1014), which the checker reports as inconclusive, never as a verdict
+        const char* wd = getenv("VERIF_C03_ALARM");
+        alarm(wd ? atoi(wd) : 150);
         int rc = run_scenario(sc, argv[0]);
         fflush(stdout);
         _exit(rc);
